@@ -1,4 +1,5 @@
-(** extraction entry point for the C15 correspondence check and judges *)
+(** extraction entry point for the C15 correspondence check and judges
+    build dependencies (read by lib/vplib.py Model): ErgV.Common.Sx ErgV.gen.MarshalTab ErgV.Marshal.Model ErgV.Marshal.Spec *)
 From Coq Require Import ZArith List Bool.
 From ErgV Require Import Common.Sx gen.MarshalTab Marshal.Model Marshal.Spec.
 Import ListNotations.
